@@ -103,6 +103,24 @@ M("C05", "pad-split-temporaries-negated", "c2.py", _PAD,
 M("C05", "pad-branches-skip-aligned", "c2.py", _PAD,
   "    remainder = len(data) % block_size\n    if remainder == 0:\n        return data\n"
   "    missing = block_size - remainder\n    return data + b\"A\" * missing\n", "C05.R5")
+# equivalent spellings of the pad count decided by stated lemmas (no evaluation of the body): `-n % b or b` (L4), the bit
+# mask of a power of two (L6), a shifted floor division (L1, L2); a count with two definitions is undecided, hence silent
+T("C05", "twin-pad-negmod-or", "c2.py", _PAD,
+  "    to_pad = -len(data) % block_size or block_size\n    return data + b\"A\" * to_pad\n")
+T("C05", "twin-pad-bitmask", "c2.py", _PAD,
+  "    to_pad = block_size - (len(data) & (block_size - 1))\n    return data + to_pad * b\"A\"\n")
+T("C05", "twin-pad-ljust-shifted", "c2.py", _PAD,
+  "    total = ((len(data) + block_size) // block_size) * block_size\n    return bytes(data).ljust(total, b\"A\")\n")
+T("C05", "twin-pad-count-two-definitions", "c2.py", _PAD,
+  "    to_pad = block_size - len(data) % block_size\n    if to_pad == 0:\n        to_pad = block_size\n    return data + b\"A\" * to_pad\n")
+M("C05", "pad-one-too-many", "c2.py", _PAD,
+  "    to_pad = block_size - len(data) % block_size + 1\n    return data + b\"A\" * to_pad\n", "C05.R5")
+M("C05", "pad-residue-of-half-block", "c2.py", _PAD,
+  "    to_pad = block_size - len(data) % 8\n    return data + b\"A\" * to_pad\n", "C05.R5")
+M("C05", "pad-ljust-default-fill", "c2.py", _PAD,
+  "    total = (len(data) // block_size + 1) * block_size\n    return data.ljust(total)\n", "C05.R5")
+M("C05", "pad-modmod-no-full-block", "c2.py", _PAD,
+  "    to_pad = (block_size - len(data) % block_size) % block_size\n    return data + b\"A\" * to_pad\n", "C05.R5")
 T("C05", "twin-data-guards-inverted", "c2.py", _ENC,
   "    if aes_key is not None:\n        cipher = AES.new(aes_key, AES.MODE_CBC, iv=iv)\n        padded = pad(data)\n        return cipher.encrypt(padded)\n"
   "    raise ValueError(\"Cannot encrypt without AES key\")\n",
